@@ -178,6 +178,37 @@ Section Proofs.
   Proof. reflexivity. Qed.
 End Proofs.
 
+(* ---- Optimize never panics: removePassOps runs before insertDemand, so the
+        shared dag.PassOp cannot occur twice at the top level ---- *)
+Lemma filter_pass_none l : filter is_pass (filter (fun o => negb (is_pass o)) l) = [].
+Proof.
+  induction l as [|o r IH]; [reflexivity|].
+  simpl. destruct (is_pass o) eqn:E; simpl; [exact IH|]. rewrite E. exact IH.
+Qed.
+
+Lemma count_pass_post l : (count_pass (pass_post l) <= 1)%nat.
+Proof.
+  unfold pass_post, count_pass.
+  destruct (filter (fun o => negb (is_pass o)) l) as [|y t] eqn:E.
+  - simpl. apply le_n.
+  - rewrite <- E. rewrite filter_pass_none. simpl. apply le_S, le_n.
+Qed.
+
+Theorem optimize_total s :
+  optimize s =
+  Some (remove_pass (source_paths (merge_filters (opt_parallels (remove_pass (merge_filters s)))))).
+Proof.
+  unfold optimize. cbv zeta.
+  match goal with |- (if (2 <=? count_pass ?x)%nat then _ else _) = _ =>
+    pose proof (count_pass_post (map (walk_op true pass_post)
+      (source_paths (merge_filters (opt_parallels (remove_pass (merge_filters s))))))) as H;
+    change (count_pass x <= 1)%nat in H;
+    destruct (2 <=? count_pass x)%nat eqn:E end; [|reflexivity].
+  apply Nat.leb_le in E. exfalso. eapply Nat.nle_succ_diag_l. eapply Nat.le_trans; eassumption.
+Qed.
+
+Arguments parent_of : simpl never.
+
 Section Proofs2.
   Variable V : Type.
   Variable holds : expr -> V -> bool.
@@ -224,7 +255,7 @@ Section Proofs2.
     apply (op_deep_ind (fun o => forall parents, op_equiv (fst (prop_op o parents)) o)).
     - intros paths HF parents ps.
       simpl prop_op.
-      set (parent := condense parents).
+      set (parent := parent_of (OFork paths) parents).
       match goal with |- context [ ?g paths ] =>
         match type of g with list (list op) -> list (list op) * prop_res => set (go := g) end end.
       assert (G : forall pp, Forall (Forall (fun o => forall parents, op_equiv (fst (prop_op o parents)) o)) pp ->
@@ -246,7 +277,7 @@ Section Proofs2.
         try reflexivity; try (exfalso; eapply HnF; reflexivity).
       all: try (destruct b as [b|]; [exfalso; eapply HnO; reflexivity|reflexivity]).
       all: simpl prop_op.
-      all: try (destruct (condense parents) as [|[d0 key] rest]; [reflexivity|];
+      all: try (destruct (parent_of _ parents) as [|[d0 key] rest]; [reflexivity|];
                 destruct (summ_match k key); reflexivity).
       all: try (destruct parents as [|p0 [|p1 [|p2 r]]]; reflexivity).
   Qed.
@@ -268,7 +299,7 @@ Section Proofs2.
   Proof.
     destruct o as [sk0 f0|e|a|a|a|a|a nf r|n|n| |c| |i|l k a d pi po|paths|e d| |i lk rk ld rd|i b|i|i];
       simpl; try discriminate; try (intros H; exact H).
-    - destruct (condense parents) as [|[d0 key] rest]; [discriminate|].
+    - destruct (parent_of _ parents) as [|[d0 key] rest]; [discriminate|].
       destruct (summ_match k key); discriminate.
     - match goal with |- context [ ?g paths ] =>
         match type of g with list (list op) -> list (list op) * prop_res => destruct (g paths) end end.
@@ -300,20 +331,18 @@ Section Proofs2.
 
   (* End to end, for the plans on which nothing is lifted into fork branches
      and no nested entry is rewritten (both are computable side conditions;
-     every fork-free plan satisfies them). *)
-  Theorem optimize_preserves_partial s s' input :
-    optimize s = Some s' ->
+     every fork-free plan satisfies them): Optimize succeeds and the plan it
+     returns means what the analysed plan means. *)
+  Theorem optimize_preserves_partial s input :
     forall s2, s2 = remove_pass (merge_filters s) ->
     opt_parallels s2 = s2 ->
     source_paths (merge_filters s2) = source_post (merge_filters s2) ->
     scan_clean (merge_filters s2) ->
-    run s' input = run s input.
+    exists s', optimize s = Some s' /\ run s' input = run s input.
   Proof.
-    intros Ho s2 Es2 Hl Hs Hc.
-    unfold optimize in Ho. cbv zeta in Ho. rewrite <- Es2 in Ho.
-    rewrite Hl in Ho. rewrite Hs in Ho.
-    destruct (2 <=? count_pass (source_post (merge_filters s2)))%nat; [discriminate|].
-    inversion Ho; subst s'; clear Ho.
+    intros s2 Es2 Hl Hs Hc.
+    rewrite optimize_total. eexists. split; [reflexivity|].
+    rewrite <- Es2. rewrite Hl. rewrite Hs.
     rewrite (remove_pass_preserves V holds app multi comb over_run over_ext).
     unfold run at 1. rewrite (source_post_equiv _ Hc). fold (run (merge_filters s2) input).
     rewrite (merge_filters_preserves V holds app multi comb over_run and_law over_ext).
@@ -347,48 +376,138 @@ Definition dropped (args : list expr) (n : N) : bool :=
 Definition drop_sem (args : list expr) (r : rec) : rec :=
   filter (fun f => negb (dropped args (fst f))) r.
 
-(* analyzeCuts starts with the input key on its scoreboard and removes it only
-   when it is assigned: `cut c` is judged to keep the order on k although k is
-   gone (DESIGN lead L23).  The faithful model violates "kept key => the key's
-   value is unchanged". *)
-Theorem analyze_cut_keeps_key_refuted :
-  exists args d key r,
-    analyze (OCut args) [(d, [key])] = [(d, [key])] /\
-    lookup key (cut_sem args r) <> lookup key r.
+(* analyzeCuts (as fixed by d16c8d29d): when it reports that the order on k
+   continues as the order on k', then k' of the cut's output carries exactly
+   the value of k of its input -- for every flat record and every cut whose
+   arguments are plain top-level fields with distinct targets. *)
+Definition flat_arg (a : assignment) : Prop :=
+  match a with (EThis [_], EThis [_]) => True | _ => False end.
+
+Definition lhs_name (a : assignment) : N :=
+  match a with (EThis [l], _) => l | _ => 0%N end.
+
+Definition ordered_of (args : list assignment) (k : N) : list path :=
+  flat_map (fun a => match a with
+                     | (EThis [l], EThis [x]) => if N.eqb x k then [[l]] else []
+                     | _ => []
+                     end) args.
+
+Lemma cuts_loop_flat args k : forall acc,
+  Forall flat_arg args -> cuts_loop args [k] acc = Some (acc ++ ordered_of args k).
 Proof.
-  exists [(EThis [2%N], EThis [2%N])], false, 1%N, [(1%N, 5%N); (2%N, 7%N)].
-  split; [reflexivity|discriminate].
+  induction args as [|a rest IH]; intros acc HF; simpl.
+  - rewrite app_nil_r. reflexivity.
+  - inversion HF as [|? ? Ha Hr]; subst.
+    destruct a as [l r]. destruct l as [[|l [|? ?]]| | | | | | |]; try contradiction.
+    destruct r as [[|x [|? ?]]| | | | | | |]; try contradiction.
+    simpl. unfold path_eqb. simpl. rewrite andb_true_r.
+    destruct (N.eqb x k).
+    + rewrite (IH _ Hr). rewrite <- app_assoc. reflexivity.
+    + rewrite (IH _ Hr). reflexivity.
 Qed.
 
-(* ... and then `rename k:=c` is judged to keep the order on k as well, although
-   k now carries c's values. *)
-Theorem analyze_cut_rename_refuted :
-  let cut := [(EThis [2%N], EThis [2%N])] in     (* cut c *)
-  let ren := [(EThis [1%N], EThis [2%N])] in     (* rename k:=c *)
-  analyze (ORename ren) (analyze (OCut cut) [(false, [1%N])]) = [(false, [1%N])] /\
-  forall r, lookup 1%N (cut_sem cut r) = None.
+Lemma lookup_app n a b :
+  lookup n (a ++ b) = match lookup n a with Some v => Some v | None => lookup n b end.
 Proof.
-  split; [reflexivity|].
-  intros r. unfold cut_sem. simpl. destruct (lookup 2%N r); reflexivity.
+  induction a as [|[m v] t IH]; simpl; [reflexivity|].
+  destruct (N.eqb m n); [reflexivity|exact IH].
 Qed.
+
+Lemma lookup_cut_notin args r n :
+  Forall flat_arg args -> ~ In n (map lhs_name args) -> lookup n (cut_sem args r) = None.
+Proof.
+  induction args as [|a rest IH]; intros HF Hn; [reflexivity|].
+  inversion HF as [|? ? Ha Hr]; subst.
+  destruct a as [l x]. destruct l as [[|l [|? ?]]| | | | | | |]; try contradiction.
+  destruct x as [[|x [|? ?]]| | | | | | |]; try contradiction.
+  simpl in Hn. unfold cut_sem. simpl. fold (cut_sem rest r).
+  rewrite lookup_app.
+  assert (Hl : N.eqb l n = false) by (apply N.eqb_neq; intros E; apply Hn; left; exact E).
+  destruct (lookup x r); simpl; rewrite ?Hl; apply IH; auto.
+Qed.
+
+Lemma ordered_of_in args k k' :
+  Forall flat_arg args -> In [k'] (ordered_of args k) -> In k' (map lhs_name args).
+Proof.
+  induction args as [|a rest IH]; intros HF Hin; [contradiction|].
+  inversion HF as [|? ? Ha Hr]; subst.
+  destruct a as [l x]. destruct l as [[|l [|? ?]]| | | | | | |]; try contradiction.
+  destruct x as [[|x [|? ?]]| | | | | | |]; try contradiction.
+  simpl in *. destruct (N.eqb x k); simpl in Hin.
+  - destruct Hin as [E|Hin]; [left; congruence|right; apply IH; assumption].
+  - right. apply IH; assumption.
+Qed.
+
+Lemma cut_value args k k' r :
+  Forall flat_arg args -> NoDup (map lhs_name args) ->
+  ordered_of args k = [[k']] ->
+  lookup k' (cut_sem args r) = lookup k r.
+Proof.
+  induction args as [|a rest IH]; intros HF ND HO; [discriminate|].
+  inversion HF as [|? ? Ha Hr]; subst.
+  destruct a as [l x]. destruct l as [[|l [|? ?]]| | | | | | |]; try contradiction.
+  destruct x as [[|x [|? ?]]| | | | | | |]; try contradiction.
+  simpl in ND. inversion ND as [|? ? Hnotin ND']; subst.
+  unfold cut_sem. simpl. fold (cut_sem rest r). rewrite lookup_app.
+  simpl in HO. destruct (N.eqb x k) eqn:Exk.
+  - apply N.eqb_eq in Exk. subst x. simpl in HO. inversion HO as [[El HO']]. subst l.
+    destruct (lookup k r) as [v|] eqn:Ek; simpl.
+    + rewrite N.eqb_refl. reflexivity.
+    + apply lookup_cut_notin; assumption.
+  - simpl in HO.
+    assert (Hin : In k' (map lhs_name rest)).
+    { apply (ordered_of_in rest k); [assumption|]. rewrite HO. left; reflexivity. }
+    assert (Hl : N.eqb l k' = false).
+    { apply N.eqb_neq. intros E. subst l. contradiction. }
+    destruct (lookup x r); simpl; rewrite ?Hl; apply IH; assumption.
+Qed.
+
+Theorem analyze_cut_keeps_key args d k k' r :
+  Forall flat_arg args -> NoDup (map lhs_name args) ->
+  analyze (OCut args) [(d, [k])] = [(d, [k'])] ->
+  lookup k' (cut_sem args r) = lookup k r.
+Proof.
+  intros HF ND HA. simpl in HA. unfold analyze_cuts in HA.
+  rewrite (cuts_loop_flat args k [] HF) in HA. simpl in HA.
+  destruct (ordered_of args k) as [|f [|g t]] eqn:EO; try discriminate.
+  inversion HA; subst f. apply cut_value; assumption.
+Qed.
+
+Example analyze_cut_nonvacuous :     (* cut c, kk:=k  keeps the order, as kk *)
+  analyze (OCut [(EThis [2%N], EThis [2%N]); (EThis [3%N], EThis [1%N])]) [(true, [1%N])]
+  = [(true, [3%N])].
+Proof. reflexivity. Qed.
+
+(* The former counterexamples (DESIGN lead L23) are now analysed as "order
+   unknown": `cut c` alone, `cut c | rename k:=c`, and put/drop/rename of a
+   record containing the key. *)
+Theorem analyze_former_counterexamples :
+  let k := [1%N] in let c := [2%N] in let n := [4%N] in let nx := [4%N; 5%N] in
+  analyze (OCut [(EThis c, EThis c)]) [(false, k)] = [] /\
+  analyze (ORename [(EThis k, EThis c)]) [(false, k)] = [] /\
+  analyze (OPut [(EThis n, EOther 0)]) [(false, nx)] = [] /\
+  analyze (ODrop [EThis n]) [(false, nx)] = [] /\
+  analyze (ORename [(EThis [6%N], EThis n)]) [(false, nx)] = [].
+Proof. repeat split; reflexivity. Qed.
 
 (* drop is analysed correctly for top-level fields. *)
 Lemma dropped_false args k :
-  existsb (fun f => field_is f [k]) args = false -> dropped args k = false.
+  existsb (fun f => overlaps_e f [k]) args = false -> dropped args k = false.
 Proof.
   induction args as [|a r IH]; simpl; [reflexivity|].
   intros H. apply orb_false_iff in H as [H1 H2].
   rewrite (IH H2), orb_false_r.
   destruct a as [p| | | | | | |]; try reflexivity.
   destruct p as [|m [|m2 t]]; try reflexivity.
-  simpl in H1. unfold path_eqb in H1. simpl in H1. rewrite andb_true_r in H1. exact H1.
+  simpl in H1. unfold overlaps in H1. simpl in H1. rewrite !andb_true_r in H1.
+  apply orb_false_iff in H1 as [_ H1]. exact H1.
 Qed.
 
 Theorem analyze_drop_keeps_key args d k r :
   analyze (ODrop args) [(d, [k])] = [(d, [k])] ->
   lookup k (drop_sem args r) = lookup k r.
 Proof.
-  simpl. destruct (existsb (fun f => field_is f [k]) args) eqn:E; [discriminate|]. intros _.
+  simpl. destruct (existsb (fun f => overlaps_e f [k]) args) eqn:E; [discriminate|]. intros _.
   apply dropped_false in E.
   induction r as [|[n v] t IH]; [reflexivity|].
   unfold drop_sem in *. simpl.
@@ -401,3 +520,31 @@ Example analyze_drop_nonvacuous :
   analyze (ODrop [EThis [2%N]]) [(false, [1%N])] = [(false, [1%N])].
 Proof. reflexivity. Qed.
 
+(* ---- null placement of sort versus sort keys ---- *)
+Lemma sort_puts_nulls_first_eq nf desc : sort_puts_nulls_first nf desc = nf.
+Proof. destruct nf, desc; reflexivity. Qed.
+
+(* liftIntoParPaths (as fixed by 7e8198198): a sort is replaced by per-leg sorts
+   and a new merge only if the merge has the sort's direction and null placement. *)
+Theorem lift_sort_merge_agrees paths k0 d0 nf rev after paths' e d after' :
+  lift (OFork paths :: OSort [(k0, d0)] nf rev :: after) = OFork paths' :: OMerge e d :: after' ->
+  e = k0 /\ d = (if rev then negb d0 else d0) /\
+  sort_puts_nulls_first nf d = key_order_nulls_first d /\
+  paths' = append_paths paths (OSort [(k0, d0)] nf rev).
+Proof.
+  unfold lift. rewrite sort_puts_nulls_first_eq. unfold key_order_nulls_first.
+  destruct nf, rev, d0; simpl; intros H; inversion H; subst; auto.
+Qed.
+
+(* Still false (open finding F-C07-2): sortKeysOfSort describes `sort -r k` as
+   the sort key k:desc, but the sort puts nulls last and k:desc means nulls
+   first; consumers of the key (join sort elision, merge absorption) then
+   mis-order null keys. *)
+Theorem sort_key_null_placement_refuted :
+  exists args nf rev d p,
+    sort_keys_of_sort args rev = [(d, p)] /\
+    sort_puts_nulls_first nf d <> key_order_nulls_first d.
+Proof.
+  exists [(EThis [1%N], false)], false, true, true, [1%N].
+  split; [reflexivity|discriminate].
+Qed.
